@@ -154,6 +154,9 @@ NAMINGS = {
     "suffix": ("model.pt", "model.pt.injected"),
     "subdir": ("model.pt", os.path.join("o", "out.pt")),
     "upper_ext": ("checkpoint.pt", "checkpoint.PT"),
+    # the archive's root folder is the file name: names that look like the model pickle's own
+    "pkl_like": ("data.pkl.bak", "data.pkl"),
+    "pkl_dir": ("data.pkl", "out.data.pkl"),
 }
 
 
@@ -203,6 +206,16 @@ def check(spec, tag, overwrite, scratch, naming="plain"):
         return fail(f"the payload {payload[:60]!r}... cannot be inserted into data.pkl at all: "
                     f"{type(e).__name__}: {e}")
 
+    # (some cases) the caller's working directory holds a file that happens to be named like the
+    # payload text: the payload is code, never a path
+    cwd0 = os.getcwd()
+    if len(tag) % 4 == 2 and "/" not in payload and "\x00" not in payload:
+        try:
+            with open(os.path.join(scratch.path, payload), "w") as f:
+                f.write("import verif_sink\nverif_sink.sink('DECOY FILE CONTENT')\n")
+            os.chdir(scratch.path)
+        except (OSError, ValueError):
+            pass
     before = _listing(scratch.path)
     import contextlib
     import io
@@ -219,6 +232,8 @@ def check(spec, tag, overwrite, scratch, naming="plain"):
                 wrapper.inject_payload(payload, dst, injection="insertion", overwrite=overwrite)
     except Exception as e:  # noqa: BLE001
         return fail(f"inject_payload raised {type(e).__name__}: {e}")
+    finally:
+        os.chdir(cwd0)
     after = _listing(scratch.path)
     if overwrite:
         if after != before:
